@@ -246,6 +246,17 @@ def funnel(ctx):
     if unprobed:
         raise vlib.CheckFailure("C18 funnel: call site(s) without a probe (extend COVER in tools/checks/c18_funnel.py): " +
                                 ", ".join("%s line %s (%s)" % (s.key, s.line, s.kind) for s in unprobed))
+    noshape = [s.key for s in calls if s.key not in c18_funnel.SHAPES]
+    if noshape or set(c18_funnel.SHAPES) != set(c18_funnel.COVER):
+        raise vlib.CheckFailure("C18 funnel: SHAPES and COVER in tools/checks/c18_funnel.py do not list the same call sites (%s)" %
+                                ", ".join(noshape or sorted(set(c18_funnel.SHAPES) ^ set(c18_funnel.COVER))))
+    shape_diff = {s.key: (c18_funnel.SHAPES[s.key], s.shape, s.line) for s in calls if s.shape != c18_funnel.SHAPES[s.key]}
+    for k, (want, got, line) in sorted(shape_diff.items()):
+        ctx.violation("funnel-shape:" + k,
+                      "the result of the call %s (line %s) is used as %r in the working tree, expected %r: how a refusal is "
+                      "recognised there has changed (probes of that site: %s)" % (k, line, got, want, ", ".join(c18_funnel.COVER[k][0])),
+                      {"correspondence": "clang AST use shape (tools/checks/c18_ast.py) vs SHAPES (tools/checks/c18_funnel.py)",
+                       "site": k, "expected_shape": want, "observed_shape": got}, found_input=False)
     F = c18_funnel.Funnel(ctx)
     evals = F.run_all()
     # every probe named in COVER must have evaluated something of each kind it is meant to show
@@ -256,9 +267,9 @@ def funnel(ctx):
                 if F.counts[(pr, kind)] == 0:
                     raise vlib.CheckFailure("C18 funnel: probe %s (site %s) made no %s evaluation" % (pr, key, kind))
     shown = collections.Counter()
-    for e in evals:
-        if e.ok:
-            continue
+    # failed evaluations in a fixed order (probes finish in scheduling order): which three of a probe are reported,
+    # and therefore which known-finding keys are printed, must not depend on thread timing
+    for e in sorted((e for e in evals if not e.ok), key=lambda e: (e.probe, e.kind, repr(e.inp))):
         shown[e.probe] += 1
         if shown[e.probe] > 3:
             continue
@@ -275,7 +286,8 @@ def funnel(ctx):
                       {"correspondence": "clang AST call-site enumeration (tools/checks/c18_ast.py) vs COVER (tools/checks/c18_funnel.py)", "missing": k},
                       found_input=False)
     return {"callsites": [s.as_dict() for s in calls], "sources_scanned": info["sources_scanned"], "files_mentioning": info["files_mentioning"],
-            "callsites_missing": missing, "tool_runs": F.runs, "evaluations": sum(F.counts.values()),
+            "callsites_missing": missing, "shape_differences": {k: {"expected": v[0], "observed": v[1]} for k, v in shape_diff.items()},
+            "tool_runs": F.runs, "evaluations": sum(F.counts.values()),
             "evaluations_by_probe": {"%s/%s" % k: v for k, v in sorted(F.counts.items())},
             "failed_by_probe": dict(F.failed), "repo_fixture": F.fixture_note,
             "site_to_probes": {k: {"probes": v[0], "class": v[1]} for k, v in c18_funnel.COVER.items()},
